@@ -240,6 +240,7 @@ def run(chk, repo):
         '(last-iteration flush keyed on a sound ordinal, flush test reached on every iteration, '
         'single-element consumption only when the flush fires every iteration)',
         'C06.b each batch result is processed from that result and the peptide table only',
+        'C06.g the identity (hash/eq) of a variant record includes the donor range attributes, so set() de-duplication cannot merge distinct splice events',
         'C06.c records of a transcript are gathered from ALL pointers of the key and sorted; '
         'filter_variants sorts its result; pointer registration appends',
         'C06.d processing order is a sort by an injective rank',
@@ -369,6 +370,35 @@ def run(chk, repo):
             not any(isinstance(n, (ast.Break, ast.Continue, ast.Return)) for n in ast.walk(fl[0]))
     chk.ob('C06.c', 'every GVF file is indexed (idx or generated), none skipped', op.where, ok,
            'open() does not register pointers for every GVF file', key=op.qual + '::every-file', fn=op.qual)
+
+    # ------------------------------------------------------------------ C06.g
+    chk.rule('C06.g', 'R-KEYS: set identity of a variant record covers the donor range it applies (set() de-duplication is file-order independent)', 2)
+    vr = repo.cls('seqvar.VariantRecord:VariantRecord')
+
+    def attr_keys(fn):
+        ks = set()
+        for n in ast.walk(fn.node):
+            if isinstance(n, ast.Subscript) and unparse(n.value) == 'self.attrs' and isinstance(n.slice, ast.Constant):
+                ks.add(n.slice.value)
+            if isinstance(n, ast.Call) and unparse(n.func) == 'self.attrs.get' and n.args and isinstance(n.args[0], ast.Constant):
+                ks.add(n.args[0].value)
+        return ks
+    hf, ef = vr.methods.get('__hash__'), vr.methods.get('__eq__')
+    if hf is None or ef is None:
+        raise AnalysisError('anchor=seqvar.VariantRecord:VariantRecord: __hash__ / __eq__ not found')
+    chk.uses(hf, ef)
+    identity = attr_keys(hf) | attr_keys(ef)
+    getters = [m for nm, m in vr.methods.items() if nm.startswith('get_donor_')]
+    if len(getters) < 2:
+        raise AnalysisError('anchor=seqvar.VariantRecord:VariantRecord: get_donor_* accessors not found')
+    uses_set = any(isinstance(n, ast.Call) and call_name(n) == 'set' for n in ast.walk(gi.node))
+    for m in getters:
+        ks = attr_keys(m)
+        chk.ob('C06.g', f"{m.name}: attribute(s) {sorted(ks)} take part in __hash__ / __eq__ (records are de-duplicated with set(): {uses_set})", hf.where,
+               bool(ks) and ks <= identity,
+               f"{sorted(ks - identity)} is read when the variant is applied to the graph but is not part of the record identity: two splice events anchored at the "
+               "same position with different donor ranges collapse in set(records), and which one survives depends on the order of the GVF files",
+               key=f"{hf.qual}::identity-covers::{m.name}", fn=hf.qual)
 
     # ------------------------------------------------------------------ C06.e
     from rules.C10 import rule_thread
